@@ -431,6 +431,7 @@ type State struct {
 	LoopSnaps []loopSnap
 	CancelFns map[string]*Term
 	GhostLets map[string]*Val
+	LoopEntry map[int]loopEntrySnap // heap at the first arrival at loop N (before the havoc)
 	FreshList []*Term
 	LiveIters []*RangeIter
 	Epoch   int // bumped when "everything" is havocked, so later-materialised families are fresh too
@@ -457,6 +458,7 @@ func (s *State) Clone() *State {
 		LoopSnaps: s.LoopSnaps[:len(s.LoopSnaps):len(s.LoopSnaps)],
 		CancelFns: s.CancelFns,
 		GhostLets: s.GhostLets,
+		LoopEntry: s.LoopEntry,
 		FreshList: s.FreshList[:len(s.FreshList):len(s.FreshList)],
 		LiveIters: s.LiveIters[:len(s.LiveIters):len(s.LiveIters)],
 	}
@@ -788,4 +790,9 @@ func (s *State) assumeValAllocated(v *Val) {
 	for _, f := range v.Fields {
 		s.assumeValAllocated(f)
 	}
+}
+
+type loopEntrySnap struct {
+	Heap  map[string]*Term
+	Epoch int
 }
